@@ -640,7 +640,8 @@ def ini_expected(nodes, env):
     return out
 
 
-def render_ini(rng, nodes, sep):
+def render_ini_lines(rng, nodes, sep):
+    """one rendered line per node"""
     sp = lambda: bytes(rng.choice(b" \t") for _ in range(rng.choice([0, 0, 1, 2])))
     lines = []
     for n in nodes:
@@ -664,6 +665,11 @@ def render_ini(rng, nodes, sep):
                 else:
                     v += b"${" + p[1] + b"${" + p[2] + b"}}"
             lines.append(sp() + n.name + sp() + bytes([sep]) + sp() + v + sp() + rng.choice([b"", b"\r"]))
+    return lines
+
+
+def render_ini(rng, nodes, sep):
+    lines = render_ini_lines(rng, nodes, sep)
     doc = b"\n".join(lines)
     if lines and rng.random() < 0.7:
         doc += b"\n"
@@ -683,3 +689,47 @@ def parse_ini_result(line):
         k, v = w.split("=")
         out.append((b"" if k == "-" else bytes.fromhex(k), b"" if v == "-" else bytes.fromhex(v)))
     return out
+
+
+# ------------------------------------------------------------------ INI documents spread over files (@INCLUDE)
+
+INC_NAMES = [b"inc", b"inc1", b"inc10", b"a.conf", b"a.conf.local", b"a.conf.d", b"x", b"x y", b"sub/k.conf", b"z-9"]
+
+
+def split_includes(rng, lines, mainpath, p=0.25, maxdepth=3):
+    """move random runs of lines into include files (nested up to maxdepth): the document says the same,
+    `@INCLUDE <file>` lines are a layout. -> {path: content}; relative names are resolved against the
+    directory of the MAIN file, absolute ones (`/…`, `\\…`) are taken as written"""
+    d = mainpath.rsplit(b"/", 1)[0] if b"/" in mainpath else b"."
+    names = list(INC_NAMES)
+    rng.shuffle(names)
+    files = {}
+    ws = lambda: bytes(rng.choice(b" \t") for _ in range(rng.choice([0, 0, 1, 3])))
+
+    def make(ls, depth):
+        out, i = [], 0
+        while i < len(ls):
+            if names and depth < maxdepth and rng.random() < p:
+                j = i + rng.randrange(0, min(6, len(ls) - i) + 1)
+                name = names.pop()
+                form = rng.choice(["rel", "rel", "abs", "bs"])
+                if form == "rel":
+                    written, key = name, d + b"/" + name
+                elif form == "abs":
+                    written = key = b"/V/" + name
+                else:
+                    written = key = b"\\" + name
+                files[key] = make(ls[i:j], depth + 1)
+                out.append(b"@INCLUDE " + ws() + written + ws() + rng.choice([b"", b"\r"]))
+                i = j
+            else:
+                out.append(ls[i]); i += 1
+        return b"\n".join(out) + (b"\n" if out and rng.random() < 0.8 else b"")
+    main = make(lines, 0)
+    res = {mainpath: main}
+    res.update(files)
+    return res
+
+
+def inif_op(sep, mainpath, files):
+    return "inif %02x %s%s" % (sep, hexs(mainpath), "".join(" %s=%s" % (hexs(k), hexs(v)) for k, v in files.items()))
